@@ -80,7 +80,7 @@ def _array_jobs(tier, prop):
 
 
 def _list_jobs(tier, prop):
-    nmax = 4 if tier == "thorough" else 3
+    nmax = 5 if tier == "thorough" else 4     # List_At walks from either end depending on the half: length 4 is the first with an interior back-half index
     J = []
     L = ["src/Exception.c", "src/Iter.c", "stubs/throw.c"]
     F = {"push": ["List_Push", "List_Alloc", "List_Link"], "pop": ["List_Pop", "List_Unlink", "List_Free"],
